@@ -275,6 +275,17 @@ def _build_args(call):
         xs = np.array(a["xs"], dtype=float)
         if a["f"] == "hp2dec_v":
             xs = np.array([an.dec2hp(float(v)) for v in xs])
+        lay = a.get("layout", "c")
+        if lay == "strided":                      # every other element of a longer array of the caller's
+            big = np.full(2 * len(xs) + 1, 11.0)
+            big[1::2] = xs
+            xs = big[1::2]
+        elif lay == "int":                        # whole degrees held in an integer array
+            xs = np.array([int(v) for v in a["xs"]], dtype=np.int64)
+        elif lay == "2d":
+            xs = np.array([xs, xs[::-1]])
+        elif lay == "f32":
+            xs = np.array([float(int(v)) + 0.25 for v in a["xs"]], dtype=np.float32)     # (values a float32 holds exactly)
         return getattr(an, a["f"]), [xs]
     if fn == "vincinv_utm":
         return gd.vincinv_utm, [a["zone"], a["e1"], a["n1"], a["zone"], a["e2"], a["n2"], a["hemi"], ell]
@@ -568,6 +579,8 @@ def call_strategy(families=False):
                                "hp>hp2dms", "hp>hp2ddm", "gon>gon2dec", "gon>gon2hp", "gon>gon2rad", "dec>dd2sec",
                                "dec>dec2gona", "hp>hp2deca", "hp>hp2gona", "gon>gon2deca", "gon>gon2hpa", "gon>gon2dms", "gon>gon2ddm"])),
         _fd("angle_fn_v", xs=st.lists(S.floats(-360, 360), min_size=1, max_size=6), f=st.sampled_from(["hp2dec_v", "dec2hp_v"])),
+        _fd("angle_fn_v", xs=st.lists(S.floats(-360, 360), min_size=1, max_size=6), f=st.sampled_from(["hp2dec_v", "dec2hp_v"]),
+            layout=st.sampled_from(["strided", "int", "2d", "f32"])),
         _fd("line_sf", zone=st.integers(1, 60), e1=utm_e, n1=utm_n, e2=utm_e, n2=utm_n, hemi=st.sampled_from(["south", "north"]), ell=st.just("grs80")),
         _fd("enu2xyz", lat=S.floats(-90, 90), lon=S.floats(-180, 180), v=st.lists(S.floats(-1e4, 1e4), min_size=3, max_size=3)),
         _fd("xyz2enu", lat=S.floats(-90, 90), lon=S.floats(-180, 180), v=st.lists(S.floats(-1e4, 1e4), min_size=3, max_size=3)),
